@@ -37,47 +37,47 @@ type BlockShape struct {
 }
 
 type Scenario struct {
-	ID          int                 `json:"id"`
-	Kind        string              `json:"kind"`
-	Shape       Shape               `json:"shape"`
-	Mode        string              `json:"mode"`
-	Out         map[string][]string `json:"out"`
-	Out2        map[string][]string `json:"out2"` // outcomes in recovering processes (nil: same as Out)
-	Lat         map[string][]int    `json:"lat"`
-	LatMaxUs    int                 `json:"latmax"`
-	QuietUs     int                 `json:"quiet"`
-	Seed        int64               `json:"seed"`
-	Evs         []ModelEv           `json:"evs"`
-	NPlans      int                 `json:"nplans"`
-	Poll        bool                `json:"poll"`
-	PollStatus  bool                `json:"pollstatus"` // the polling reader uses Workstream.Status (the streaming API) instead of Plan
-	SlowStoreUs int                 `json:"slowstore"`
-	ContDelayUs int                 `json:"contdelay"`
-	TimeoutMs   int                 `json:"timeoutms"`
-	Crash       string              `json:"crash"` // "", "all", "sample"
-	CrashMax    int                 `json:"crashmax"`
-	Crash2Max   int                 `json:"crash2max"` // >0: second crash during recovery, that many (k,j) pairs per k
-	Hold        []string            `json:"hold"`      // objects whose calls are held until HoldUntil is satisfied
-	HoldUntil   map[string]int      `json:"holduntil"` // obj -> number of PStarts that must have been observed
-	WaitMs      int                 `json:"waitms"`
-	Tag         string              `json:"tag"`
-	Fn          bool                `json:"fn"` // outcomes are a function of the action alone (C10 same outcome)
-	Api         []string            `json:"api"`
-	ApiExpect   []int               `json:"apiexpect"` // per op: expected number of Start calls returning nil (99: none made)
-	Members     []Member            `json:"members"`
-	NoRecovery  bool                `json:"norecovery"`
-	MaxAgeS     int                 `json:"maxages"`
-	KillAt      int                 `json:"killat"`
-	CancelStart bool                `json:"cancelstart"` // the context given to Start is cancelled as soon as Start has returned
-	MaxSubmitMs int                 `json:"maxsubmitms"`
-	NoRespPlugin bool               `json:"noresp"`
-	FailAt      int                 `json:"failat"` // >0: the FailAt-th durable write of the run fails (not executed, error returned)
+	ID           int                 `json:"id"`
+	Kind         string              `json:"kind"`
+	Shape        Shape               `json:"shape"`
+	Mode         string              `json:"mode"`
+	Out          map[string][]string `json:"out"`
+	Out2         map[string][]string `json:"out2"` // outcomes in recovering processes (nil: same as Out)
+	Lat          map[string][]int    `json:"lat"`
+	LatMaxUs     int                 `json:"latmax"`
+	QuietUs      int                 `json:"quiet"`
+	Seed         int64               `json:"seed"`
+	Evs          []ModelEv           `json:"evs"`
+	NPlans       int                 `json:"nplans"`
+	Poll         bool                `json:"poll"`
+	PollStatus   bool                `json:"pollstatus"` // the polling reader uses Workstream.Status (the streaming API) instead of Plan
+	SlowStoreUs  int                 `json:"slowstore"`
+	ContDelayUs  int                 `json:"contdelay"`
+	TimeoutMs    int                 `json:"timeoutms"`
+	Crash        string              `json:"crash"` // "", "all", "sample"
+	CrashMax     int                 `json:"crashmax"`
+	Crash2Max    int                 `json:"crash2max"` // >0: second crash during recovery, that many (k,j) pairs per k
+	Hold         []string            `json:"hold"`      // objects whose calls are held until HoldUntil is satisfied
+	HoldUntil    map[string]int      `json:"holduntil"` // obj -> number of PStarts that must have been observed
+	WaitMs       int                 `json:"waitms"`
+	Tag          string              `json:"tag"`
+	Fn           bool                `json:"fn"` // outcomes are a function of the action alone (C10 same outcome)
+	Api          []string            `json:"api"`
+	ApiExpect    []int               `json:"apiexpect"` // per op: expected number of Start calls returning nil (99: none made)
+	Members      []Member            `json:"members"`
+	NoRecovery   bool                `json:"norecovery"`
+	MaxAgeS      int                 `json:"maxages"`
+	KillAt       int                 `json:"killat"`
+	CancelStart  bool                `json:"cancelstart"` // the context given to Start is cancelled as soon as Start has returned
+	MaxSubmitMs  int                 `json:"maxsubmitms"`
+	NoRespPlugin bool                `json:"noresp"`
+	FailAt       int                 `json:"failat"` // >0: the FailAt-th durable write of the run fails (not executed, error returned)
 	// FailKind / FailNth: instead of a position, the FailNth-th write of a kind fails. A kind is "<object kind>/<status>",
 	// with "+att" appended for an action that is written Running with attempts (the write of an attempt's result):
 	// "act/Running", "act/Running+att", "act/Completed", "seq/Running", "blk/Failed", "chk/Completed", "plan/Completed" ...
 	FailKind string `json:"failkind"`
 	FailNth  int    `json:"failnth"`
-	Root        string              `json:"root"`   // non-empty: file-backed sqlite store in this directory
+	Root     string `json:"root"` // non-empty: file-backed sqlite store in this directory
 
 	curTr, curK int
 	baseStatus  string
